@@ -38,6 +38,7 @@ fn main() {
         "c19-run" => c19::run(&arg(&args, "--sources").expect("--sources"), &out),
         "c17-run" => c17::run(&arg(&args, "--progs").expect("--progs"), argn(&args, "--depth", 2) as usize, &out),
         "lib-dump" => dump::run(&arg(&args, "--file").expect("--file"), &out),
+        "e57-read" => prog::read_cases(&arg(&args, "--cases").expect("--cases"), &out),
         "e57-run" => prog::run_programs(&arg(&args, "--progs").expect("--progs"), &out),
         "simple-run" => simple::run(&arg(&args, "--progs").expect("--progs"), &out),
         "page-replay-r" => page::replay_r(&arg(&args, "--edges").expect("--edges"), &out),
